@@ -434,7 +434,10 @@ pub fn run_property<P: Property>(p: &P, opts: &RunOpts) -> i32 {
     // 2. regression replays (seconds-long tier of saved inputs) + fixed cases
     let mut fixed: Vec<(String, P::Case)> = p.fixed_cases().into_iter().enumerate().map(|(i, c)| (format!("fixed#{i}"), c)).collect();
     let reg_dir = root.join("replays").join("regress").join(id);
-    if let Ok(rd) = std::fs::read_dir(&reg_dir) {
+    // VERIF_NO_REGRESS=1 (sensitivity measurements only): skip the saved inputs, so that a seeded change is met by the
+    // generated search alone
+    let skip_saved = std::env::var("VERIF_NO_REGRESS").is_ok();
+    if let (false, Ok(rd)) = (skip_saved, std::fs::read_dir(&reg_dir)) {
         let mut files: Vec<PathBuf> = rd.filter_map(|e| e.ok()).map(|e| e.path()).filter(|p| p.extension().map(|e| e == "json").unwrap_or(false)).collect();
         files.sort();
         for f in files {
